@@ -7,7 +7,7 @@ CHECKS = {
  # id: (technique, level text, level note, design_ref)
  "C01": ("generated well-typed programs (proptest byte streams -> type-directed generator) x boundary/random inputs; differential against a reference interpreter; plus the exhaustive operator grid with the value oracle",
          "Exploration: tens of thousands of generated programs per run over all 8 integer types, floats, bool, char, every operator, blocks, if/match/while/for, early return and (mutually) recursive functions, each on up to 6 input vectors; return value and host-call log compared with the reference interpreter.",
-         "Trusts harness/src/model.rs as the statement of the language semantics; program size bounded; trapping inputs (C10-F1/F2) are not executed.",
+         "Trusts harness/src/model.rs as the statement of the language semantics; program size bounded; inputs that divide an integer by zero (known finding C10-F1) are not executed; `MIN / -1` wraps (repaired as C10-F2) and is executed.",
          "DESIGN.md §4 C01"),
  "C02": ("generated programs with records/enums/options/lists/strings/host types; copy-then-mutate statements; differential against a reference interpreter with value semantics for aggregates and shared lists",
          "Exploration: generated type declarations (generic, nested, every field size class incl. zero-sized and odd-sized host types) and programs that copy, mutate, compare, match and return them; outputs compared with the reference interpreter.",
